@@ -287,3 +287,42 @@ def cond_text(f, idx):
     if k == 'cast':
         return cond_text(f, n['e'])
     return k
+
+
+def loop_visits_every_element(g, f, loop, visit_pts, allowed_exit=None):
+    """Range-for `loop` of f (graph g): every iteration passes one of `visit_pts`, and the loop is only left when the range is
+    exhausted (or over an edge `allowed_exit(a, b, lab)` accepts). Returns None when it holds, else a reason.
+    The iteration starts at the declaration of the loop variable (clang's CFG element for `auto &x = *__begin`)."""
+    if loop['k'] == 'forrange':
+        starts = [p for p in g.points if p.n is not None and p.f is f and p.n['k'] == 'declstmt' and
+                  any(d['id'] == loop.get('var') for d in p.n['decls'])]
+    else:
+        # while/for: the iteration starts on the true edge of the loop condition
+        starts = []
+        for p in g.points:
+            for (q, lab) in p.succ:
+                if lab and isinstance(lab[0], int) and lab[1] is f and lab[2] is True and q not in starts and \
+                        lab[0] in set(f.subtree(loop['cnd'])) | {loop['cnd']}:
+                    starts.append(q)
+    if len(starts) != 1:
+        return 'iteration start of the loop not found in the flow graph'
+    start = starts[0]
+    visit_ids = {p.id for p in visit_pts}
+    if not visit_ids:
+        return 'the loop body never makes the call'
+    r = g.reachable_from([q for (q, _l) in start.succ], avoid=list(visit_pts), avoid_edges=allowed_exit)
+    if start.id in r:
+        return 'an iteration can complete without the call (short-circuit, condition or continue skips it)'
+    if g.exit.id in r:
+        return 'the function can be left from inside an iteration before the call is made'
+    # leaving the loop early after the call: a break/return/goto inside the body
+    body = set(f.subtree(loop['body']))
+    for i in body:
+        n = f.nodes[i]
+        if n['k'] in ('break', 'return', 'GotoStmt'):
+            # tolerated when every path to it goes over an allowed exit edge
+            pts = [p for p in g.points if p.f is f and p.n is n]
+            if allowed_exit is not None and pts and all(g.must_pass_edge(p, allowed_exit) for p in pts):
+                continue
+            return 'the loop can be left before the range is exhausted (%s at line %s): the remaining elements are never visited' % (n['k'], pts[0].line if pts else '?')
+    return None
